@@ -147,4 +147,5 @@ mod tests {
 pub mod verif_hooks {
     pub use crate::backup::verif_hooks::*;
     pub use crate::operations::{tree_walker, CopyHandle, Operation};
+    pub use crate::paths::{ignore_filter, parse_ignore};
 }
